@@ -9,7 +9,7 @@ from ..drivers.jobs import Jobs, RUNNING_LIKE, gt_state, ledger
 from ..monitors import process_view, internal_errors, master_of
 from ..refmodels.failure_ref import HandlerRef, STOP_APP, RESTART_APP, RESTART_PROC, CONTINUE
 from ..report import Outcome, tier, seed
-from ..seq import Spec, run_specs, rebuild
+from ..seq import Spec, run_specs, rebuild, checked_apply
 from .c03 import app, prog
 from .e1 import replay_e1
 from ..explorer import run_batches, aggregate
@@ -334,6 +334,15 @@ def e1_configs(t):
                                           prog('b', 1, running_failure_strategy='RESTART_PROCESS',
                                                identifiers='10.0.0.2:25001,10.0.0.3:25002')])],
                        watch=['A:a', 'A:b'], expect={'A:a': 1, 'A:b': 1}, max_starts={'A:a': 1, 'A:b': 1}))
+    # two instances lost, possibly within the same tick period of the Master: every lost process is repaired
+    out.append(e1_base('double-loss-RESTART_PROCESS', 'RESTART_PROCESS',
+                       apps=[app('A', 0, [prog('a', 1, running_failure_strategy='RESTART_PROCESS',
+                                               identifiers='10.0.0.2:25001,10.0.0.1:25000'),
+                                          prog('b', 1, running_failure_strategy='RESTART_PROCESS',
+                                               identifiers='10.0.0.3:25002,10.0.0.1:25000'),
+                                          prog('c', 1, identifiers='10.0.0.1:25000')])],
+                       watch=['A:a', 'A:b', 'A:c'], F=2, crashable=[1, 2], T=3,
+                       expect={'A:a': 1, 'A:b': 1, 'A:c': 1}, cost=9))
     # both iteration orders of the set of lost processes (see world._SET_ORDER)
     for c in [c for c in out if 'mixed' in c['name'] or 'promoted' in c['name']]:
         out.append(dict(c, set_order='rev', name=c['name'] + '-rev'))
@@ -416,6 +425,6 @@ def replay(payload):
         spec = HandlerSpec(payload['config']['strategies'])
         hist = [tuple(o) for o in payload['events']]
         st = rebuild(spec, hist[:-1])
-        print(spec.apply(st, hist[-1]))
+        print(checked_apply(spec, st, hist[-1]))
         return 0
     return replay_e1(payload, {'failjobs': FDRIVER})
